@@ -28,6 +28,7 @@ import EG.Lemmas.Sector
 import EG.Lemmas.StyledArc
 import EG.Lemmas.StyledArcSector
 import EG.Lemmas.JoinsBBoxPolyMain
+import EG.Props.C02.JoinsBBox
 namespace EG.C08.TerminationThick
 open EG EG.Joins EG.C01Thick
 
@@ -453,5 +454,61 @@ theorem polyline_pixels_le_box (pl : Polyline) (w : Nat) (hw : 2 ≤ w) (hg : Po
   have h2 := sum_map_le_length_mul L (fun s => (s.xe - s.xs).toNat) _ hline
   exact Nat.le_trans h2 (Nat.mul_le_mul_right _ hlen)
 example : (2 : Nat) ≤ 5 ∧ PolyBBoxGuard ⟨⟨-7, -9⟩, [⟨0, 0⟩, ⟨9, 1⟩, ⟨0, 2⟩, ⟨0, 2⟩, ⟨4, -6⟩]⟩ 5 := by decide
+
+/-- **`pixels()` of a styled triangle against its bounding box**: whenever every pixel lies in the
+styled bounding box - which is what the triangle theorems of Props/C02/JoinsBBox.lean prove under
+their decidable guards - every coloured scanline is at most as long as the box is wide, hence at most
+`3 * (rows + 1) * width` pixels. -/
+theorem triangle_pixels_le_box_of_in_box (t : Tri) (style : TriStyle) (hi : TriNeedsI32 t style → TriI32 t)
+    (bb : Rect) (hbb : triStyledBoundingBox t style = some bb) (px : List (Pt × Nat))
+    (hpx : triPixels t style = some px) (hin : ∀ pc ∈ px, bb.contains pc.1 = true) :
+    px.length ≤ 3 * (bb.rows.length + 1) * bb.size.w := by
+  obtain ⟨bb', li, L, hbb', hli, hrun, hL, hlen, hpix⟩ := triangle_terminates t style
+  rw [hbb] at hbb'
+  obtain rfl := Option.some.inj hbb'
+  obtain ⟨pit, hpit, hprun, hpx', -⟩ := hpix hi
+  rw [hpx] at hpx'
+  obtain rfl := Option.some.inj hpx'
+  have hline : ∀ x ∈ L, (typedPixels style.fillColor style.effectiveStrokeColor x).length ≤ bb.size.w := by
+    intro x hx
+    unfold typedPixels linePixels
+    cases hc : kindColor style.fillColor style.effectiveStrokeColor x.2 with
+    | none => exact Nat.zero_le _
+    | some c =>
+      simp only [List.length_map, Scanline.points_length]
+      by_cases hemp : x.1.xs < x.1.xe
+      · have mem : ∀ p ∈ x.1.points, (p, c) ∈ L.flatMap (typedPixels style.fillColor style.effectiveStrokeColor) := by
+          intro p hp
+          refine List.mem_flatMap.mpr ⟨x, hx, ?_⟩
+          unfold typedPixels linePixels
+          rw [hc]
+          exact List.mem_map.mpr ⟨p, hp, rfl⟩
+        have c1 := hin _ (mem ⟨x.1.xs, x.1.y⟩ (Scanline.mem_points.mpr ⟨rfl, by simp only; omega, by simp only; omega⟩))
+        have c2 := hin _ (mem ⟨x.1.xe - 1, x.1.y⟩ (Scanline.mem_points.mpr ⟨rfl, by simp only; omega, by simp only; omega⟩))
+        rw [Rect.contains_iff] at c1 c2
+        simp only at c1 c2
+        omega
+      · omega
+  have h1 := flatMap_length_le_sum L (typedPixels style.fillColor style.effectiveStrokeColor)
+    (fun x => (typedPixels style.fillColor style.effectiveStrokeColor x).length) (fun _ => Nat.le_refl _)
+  have h2 := sum_map_le_length_mul L
+    (fun x => (typedPixels style.fillColor style.effectiveStrokeColor x).length) _ hline
+  exact Nat.le_trans (Nat.le_trans h1 h2) (Nat.mul_le_mul_right _ hlen)
+
+/-- The instance for Center / Outside strokes of width > 1 (with or without fill) under
+`TriStrokeGuard` (Props/C02/JoinsBBox.lean: `triangle_stroke_pixels_in_bounding_box_partial`). -/
+theorem triangle_stroke_pixels_le_box (t : Tri) (style : TriStyle) (hw : 2 ≤ style.strokeWidth)
+    (hal : style.strokeAlignment ≠ .inside) (hg : TriStrokeGuard t style)
+    (hi : TriNeedsI32 t style → TriI32 t) :
+    ∃ bb px, triStyledBoundingBox t style = some bb ∧ triPixels t style = some px ∧
+      px.length ≤ 3 * (bb.rows.length + 1) * bb.size.w := by
+  obtain ⟨bb, hbb⟩ := triStyledBoundingBox_total t style
+  obtain ⟨px, hpx⟩ := triPixels_total t style
+  exact ⟨bb, px, hbb, hpx, triangle_pixels_le_box_of_in_box t style hi bb hbb px hpx
+    (EG.C02.JoinsBBox.triangle_stroke_pixels_in_bounding_box_partial t style hw hal hg bb hbb px hpx)⟩
+example : let t : Tri := ⟨⟨0, 0⟩, ⟨9, 1⟩, ⟨2, 7⟩⟩
+    let style : TriStyle := ⟨some 1, some 2, 3, .center⟩
+    2 ≤ style.strokeWidth ∧ style.strokeAlignment ≠ .inside ∧ TriStrokeGuard t style ∧
+      ¬ TriNeedsI32 t style := by decide +kernel
 
 end EG.C08.TerminationThick
